@@ -28,6 +28,12 @@ def gen_C01(rng, tier):
                     L.append("q %s %s %s" % (op, q(rand_f(rng), m1, s1), q(rand_f(rng), m2, s2)))
     for (m1, s1) in GRID:
         for (m2, s2) in GRID:
+            v = rng.choice(["00000000", "80000000", "3f800000", rand_f(rng)])
+            w = "80000000" if v == "00000000" else v
+            L.append("q cmp %s %s" % (q(v, m1, s1), q(w, m2, s2)))       # equal VALUES: panics iff the units differ
+            L.append("q eq %s %s" % (q(v, m1, s1), q(w, m2, s2)))
+    for (m1, s1) in GRID:
+        for (m2, s2) in GRID:
             for op in ["add", "sub", "mul", "div", "addas", "subas", "mulas", "divas", "uceq", "ueqt", "ueqf", "uaok", "uanok", "ucaeq"]:
                 L.append("q %s U:%d,%d U:%d,%d" % (op, m1, s1, m2, s2))
     for (m, s) in GRID:
@@ -149,8 +155,9 @@ def gen_C02(rng, tier):
     # expirer: input category x time getter category x age (<,=,>) limit
     for ci in CATS_F:
         for ct in ["T", "E1", "E2"]:
-            for limit in [0, 5, 1000]:
-                for age in [limit - 1, limit, limit + 1]:
+            # limits below and far above 2^24 ns: the age must be compared in exact integer nanoseconds
+            for limit in [0, 5, 1000, 2 ** 24 + 3, 100_000_000, 10_000_000_000, 3_600_000_000_000]:
+                for age in [limit - 1, limit, limit + 1, limit + 3]:
                     t0 = rng.randint(-10 ** 9, 10 ** 9)
                     now = ("T:%d" % (t0 + age)) if ct == "T" else ct
                     L.append("st expirer f %s %s %d" % (mk_out(rng, ci, t0), now, limit))
@@ -891,6 +898,19 @@ def gen_mp(rng, tier, dense, pid):
     ins.append((state(0.0, 0.0, 0.0), state(3.0, 0.0, 0.0), q(0.1, 1, -1), q(0.0, 1, -2)))       # zero acceleration
     ins.append((state(0.0, 0.0, 0.0), state(3.0, 0.0, 0.0), q(0.1, 1, 0), q(0.01, 1, -2)))       # wrong unit
     ins.append((state(0.0, 0.0, 0.0), state(3.0, 0.0, 0.0), q(0.1, 1, -1), q(0.01, 1, -1)))      # wrong unit
+    for _ in range(n_of(tier, 40, 200)):
+        vmax = math.exp(rng.uniform(math.log(1e-2), math.log(1e1)))
+        amax = math.exp(rng.uniform(math.log(1e-2), math.log(1e1)))
+        sgn = rng.choice([-1.0, 1.0])
+        # rest-to-rest move whose cruise phase is a hair shorter / longer than zero (triangular profile boundary)
+        for eps in (-9e-5, -5e-5, -1e-5, -1e-6, 0.0, 1e-6, 1e-4):
+            disp = sgn * (vmax * vmax / amax + vmax * eps)
+            ins.append((state(0.0, 0.0, 0.0), state(disp, 0.0, 0.0), q(vmax, 1, -1), q(amax, 1, -2)))
+        # start / end speed exactly at the limit (zero-length acceleration or deceleration phase)
+        p1 = sgn * (3 * vmax * vmax / amax + 1.0)
+        ins.append((state(0.0, 0.0, 0.0), state(p1, sgn * vmax, 0.0), q(vmax, 1, -1), q(amax, 1, -2)))
+        ins.append((state(0.0, sgn * vmax, 0.0), state(p1, 0.0, 0.0), q(vmax, 1, -1), q(amax, 1, -2)))
+        ins.append((state(0.0, sgn * vmax, 0.0), state(p1, sgn * vmax, 0.0), q(vmax, 1, -1), q(amax, 1, -2)))
     heads = ["mp %s %s %s %s" % t for t in ins]
     bs = mp_boundaries(heads)
     L = []
@@ -1530,22 +1550,33 @@ def strip_units(tok):
     return _re.sub(r"(:|^)-?\d+,-?\d+", r"\1u", tok)
 
 
-def cross_C19(lines, outs):
-    """well-dimensioned lines (no panic / rejection in any checked build) must give equal f32 VALUES and identical timestamps in
-    every configuration; unchecked builds must never panic with a dimension panic or reject a unit"""
+def _units_of(tok):
+    import re as _re
+    return _re.findall(r"-?\d+,-?\d+", tok)
+
+
+def cross_C19(lines, outs, models=None):
+    """C19 is about CONFIGURATIONS: (1) an unchecked build never panics with a dimension panic; (2) a well-dimensioned line
+    (accepted by the checked builds) gives equal f32 VALUES and identical timestamps in every configuration (powf lines: bound
+    under libm, exempt under micromath); (3) an ill-dimensioned line (the checked build panics / rejects) gives, in an unchecked
+    build, the plain f32 arithmetic on the values, i.e. what the model computes with checking off."""
+    import re as _re
     bad = []
     names = list(outs.keys())
-    import re as _re
     chk_cfgs = [n for n in names if ("chk" in _re.split("[_,]", n) or n == "default")]
     # unit-introspection API: documented to answer differently with checking off (`eq_assume_true` is constantly true,
-    # `assert_eq_assume_not_ok` always panics, `==` ignores units): not "numeric results of a dimensionally correct program"
-    INTROSPECT = ("q uanok", "q ueqt", "q ueqf", "q uceq", "q ucaeq", "q uaok", "q eq ")
+    # `assert_eq_assume_not_ok` always panics): not numeric results of a program
+    INTROSPECT = ("q uanok", "q ueqt", "q ueqf", "q uceq", "q ucaeq", "q uaok")
     for k, c in enumerate(lines):
         row = {n: outs[n][k] for n in names if k < len(outs[n])}
         if any(o in ("NOIMPL", "BADLINE") for o in row.values()):
             continue
         if c.startswith(INTROSPECT):
             continue
+        if c.startswith("q eq "):
+            us = _units_of(c)
+            if len(us) == 2 and us[0] != us[1]:
+                continue        # `==` on different units: ill-dimensioned, and documented to ignore units when unchecked
         for n in names:
             if c.startswith(POWF_LINE) and config_tol_C19(n, c) == "skip":
                 continue
@@ -1553,8 +1584,16 @@ def cross_C19(lines, outs):
                 bad.append((c, "dimension panic in the unchecked configuration %s" % n))
         ref_name = chk_cfgs[0] if chk_cfgs else names[0]
         ref = row[ref_name]
-        if "PANIC:dim" in ref or " err" in (" " + ref) or ref.startswith("err"):
-            continue            # ill-dimensioned program: only the no-panic clause applies
+        ill = "PANIC:dim" in ref or " err" in (" " + ref) or ref.startswith("err")
+        if ill:
+            if models:
+                for n in names:
+                    if n in chk_cfgs or k >= len(models.get(n, [])):
+                        continue
+                    v, detail = compare_lines(strip_units(row[n]), strip_units(models[n][k]), {"cat", "time", "float"}, None, True)
+                    if v == "hard":
+                        bad.append((c, "unchecked configuration %s does not compute the plain arithmetic on the values: %s" % (n, detail)))
+            continue
         for n in names:
             if n == ref_name:
                 continue
@@ -1566,7 +1605,6 @@ def cross_C19(lines, outs):
                 elif ct is not None and compare_lines(strip_units(row[n]), strip_units(ref), {"cat", "time", "float"}, ct, True)[0] in ("same", "soft"):
                     v = "same"
             if v == "hard":
-                # rejections that only exist in checked builds (`err` from a unit test) are not numeric results
                 bad.append((c, "configuration %s differs from %s: %s" % (n, ref_name, detail)))
     return bad[:200]
 
